@@ -49,6 +49,14 @@ CHECKS = {
         "technique": "model-based property testing (rapid) + bounded-exhaustive history and sink-fault enumeration against a region/byte-list model",
         "assumptions": [IO_ASSUME],
     },
+    "C06": {
+        "run": "^TestC06_",
+        "level": "exploration",
+        "level_text": "Every generated parameter set is encoded by three writers and (unless Encode reports an error) checked against an independent parser of the documented frame layout (magic, flags, seq, size/4, protocol id, sections, ACL token under its own id, zero padding, multiset of entries) and decoded back by two readers under fragmentation; header length must equal bytes written and bytes consumed, payload length must delimit the payload so that the next frame decodes. All 65536 flag values and every info size 9..400 and 65440..65560 are enumerated.",
+        "level_note": "Trusted: harness/ref TTHeader layout parser and size calculator, faultio doubles. Encode errors are allowed by the statement and only counted (label encode_error).",
+        "technique": "round-trip property-based testing (rapid) + enumeration of flags and info sizes against a reference frame-layout parser",
+        "assumptions": [IO_ASSUME, "the TTHeader layout reference in harness/ref/ttheader.go (written from the layout comment and the public TTHeader description) is correct"],
+    },
     "C08": {
         "run": "^TestC08_",
         "level": "exploration",
@@ -58,5 +66,14 @@ CHECKS = {
         "assumptions": [IO_ASSUME, REF_ASSUME],
         "ulimit_v_kb": ULIMIT_KB,
         "fuzz": [{"name": "FuzzC08SkipGrammar", "seconds": 120}],
+    },
+    "C10": {
+        "run": "^TestC10_",
+        "level": "exploration",
+        "level_text": "Accept/reject, consumed length, header/payload arithmetic and decoded maps of DecodeFromBytes (two guard-page placements) and Decode (bytes reader, fragmented stream) compared with an independent frame parser, on all 65536 size-field values x 3 input lengths, all flags, all protocol ids, all info ids, all transform counts, and generated frames with reordered/repeated sections, lying counts and lengths, cuts and structural perturbations; native fuzzing in the thorough tier.",
+        "level_note": "Trusted: harness/ref TTHeader parser, guard-page arena. PayloadLen for total-length fields >= 2^31 may follow either the signed or the unsigned reading.",
+        "technique": "differential property-based testing (rapid) + exhaustive field sweeps against a reference frame parser, guard pages; native go fuzzing in the thorough tier",
+        "assumptions": [IO_ASSUME, "the TTHeader layout reference in harness/ref/ttheader.go is correct"],
+        "fuzz": [{"name": "FuzzC10TTHDecode", "seconds": 120}],
     },
 }
